@@ -895,6 +895,10 @@ func planC08(prop string, seed uint64, tier string, idx int) *Plan {
 	k.GCGraceMs = int64(g.r.pick(0, 1000, 5000, 60000, -1))
 	if g.r.chance(40) {
 		k.GCFreqMs = int64(g.r.pick(200, 5000, 60000))
+		if k.grace() > 300*k.freq() {
+			// (waiting out the grace period would be thousands of ticks)
+			k.GCGraceMs = 300 * k.GCFreqMs
+		}
 	}
 	nb := g.r.between(1, 3)
 	var blobs []int
